@@ -132,6 +132,32 @@ func runC12(c *core.Ctx) {
 				payload = p
 			}
 		}
+		if i%13 == 4 {
+			// content that spells the member names of the file formats themselves
+			switch p := payload.(type) {
+			case intoto.Link:
+				p.Command = []string{"grep", "-rl", "payloadType", "signatures", "signed", "."}
+				if p.Products == nil {
+					p.Products = map[string]intoto.HashObj{}
+				}
+				p.Products["payloadType"] = intoto.HashObj{"sha256": fmt.Sprintf("%064x", i)}
+				p.Products["payload"] = intoto.HashObj{"sha256": fmt.Sprintf("%064x", i+1)}
+				if p.ByProducts == nil {
+					p.ByProducts = map[string]interface{}{}
+				}
+				p.ByProducts["signatures"] = "_type"
+				payload = p
+			case intoto.Layout:
+				p.Readme = "payloadType"
+				if len(p.Steps) > 0 {
+					steps := append([]intoto.Step{}, p.Steps...)
+					steps[0].ExpectedCommand = []string{"payload", "payloadType", "signed"}
+					steps[0].ExpectedProducts = append([][]string{{"ALLOW", "payloadType"}, {"ALLOW", "signatures"}}, steps[0].ExpectedProducts...)
+					p.Steps = steps
+				}
+				payload = p
+			}
+		}
 		if i%41 == 7 {
 			// metadata files are not small: a link over a whole source tree, a layout with long rule lists
 			switch p := payload.(type) {
@@ -820,7 +846,7 @@ func init() {
 	core.Register(&core.Property{
 		ID:    "C12",
 		Level: "exploration",
-		Rule: "(A) round trip: seeded links/layouts (hostile strings, nested values, constraints, CA maps; a fifth with absent collections, which the library writes as null; every 41st of several hundred KiB: 1500 products / 2500 rules) x wrapper x 0-2 signatures (legacy: one with certificate), Dump -> LoadMetadata / Metablock.Load: wrapper recognised, payload, signatures and signature validity preserved; (B) labelled single-point corruptions of the dumped JSON: drop/null/retype of the wrapper parts, wrong payload types, undecodable payload, a complete document followed by something (inside the envelope payload and behind the file), truncations, unknown/odd type markers, drop/rename of every required top-level member, an unknown member at every fixed-schema level, a renamed member at every nested fixed-schema level, a value of another JSON type at every schema-typed node - all must be refused by both loaders; (C) ValidateMetablock against a reference validator (one predicate per format rule) on conforming bases and ~64 single-rule variants (malformed rules also in front of and between well-formed ones; well-formed rules whose operands are spelled like keywords) (plus 17 near-hexadecimal strings - sign, 0x, blanks, underscore, full-width digits - at every place where a hexadecimal string is demanded) each for layouts (all three key maps) and links. " +
+		Rule: "(A) round trip: seeded links/layouts (hostile strings, nested values, constraints, CA maps; a fifth with absent collections, which the library writes as null; every 13th with content that spells the member names of the file formats (payloadType, payload, signatures, signed, _type); every 41st of several hundred KiB: 1500 products / 2500 rules) x wrapper x 0-2 signatures (legacy: one with certificate), Dump -> LoadMetadata / Metablock.Load: wrapper recognised, payload, signatures and signature validity preserved; (B) labelled single-point corruptions of the dumped JSON: drop/null/retype of the wrapper parts, wrong payload types, undecodable payload, a complete document followed by something (inside the envelope payload and behind the file), truncations, unknown/odd type markers, drop/rename of every required top-level member, an unknown member at every fixed-schema level, a renamed member at every nested fixed-schema level, a value of another JSON type at every schema-typed node - all must be refused by both loaders; (C) ValidateMetablock against a reference validator (one predicate per format rule) on conforming bases and ~64 single-rule variants (malformed rules also in front of and between well-formed ones; well-formed rules whose operands are spelled like keywords) (plus 17 near-hexadecimal strings - sign, 0x, blanks, underscore, full-width digits - at every place where a hexadecimal string is demanded) each for layouts (all three key maps) and links. " +
 			"non-trivial = the corruption changed the parsed JSON / the variant differs from the base; distinct = (kind, wrapper, loader, corruption label) resp. hash of the value",
 		Assumptions: []string{
 			"an expiry with fractional seconds (2030-01-01T00:00:00.5Z) is not judged: it is a parseable UTC timestamp, although not of the YYYY-MM-DDThh:mm:ssZ shape",
